@@ -257,16 +257,8 @@ pub fn parse_entry_points(b: &[u8], with_compound: bool) {
     if !with_compound {
         return;
     }
-    if let Ok(c) = Compound::parse(b) {
-        // the iterator parses each tile; bounded by the number of tiles
-        let mut n = 0usize;
-        for _ in c {
-            n += 1;
-            if n > b.len() {
-                break;
-            }
-        }
-    }
+    // acceptance only: what iteration does afterwards is C11's own subject
+    let _ = Compound::parse(b).is_ok();
 }
 
 pub fn touch_all(b: &[u8]) -> Result<(), String> {
